@@ -156,4 +156,41 @@ theorem C14_gen_fresh_items :
       showFsHName (d.freshFolder "F").visible = Gen.Health.itemVisibleDefault) := by
   refine ⟨fun _ => rfl, rfl, rfl, rfl, rfl, fun _ => ⟨rfl, rfl, rfl, rfl⟩⟩
 
+
+/-! ### what the agent is shown for a folder (round 7): `FolderObservation.observe`, the `pre_timestep` path, the order of a game step -/
+
+/-- `FolderObservation.observe` as a guarded-effect table = `FolderObs.see`: not in the state dictionary → the default observation,
+cache untouched; `requires_scan` and flag clear → the cached value; `requires_scan` and flag set → `visible_status`; no
+`requires_scan` → `health_status`; the value reported is the value cached. (Rows about the files of the folder are not C14's.) -/
+theorem C14_gen_folder_observe :
+    Gen.Health.folderObserve.filter (fun r => r.1 = "return" || r.1 = "set health_status" || r.1 = "set self.cached_obs" ||
+        r.1 = "set obs['health_status']") =
+      [("return", "folder_state is NOT_PRESENT_IN_STATE", "self.default_observation"),
+       ("return", "not (folder_state is NOT_PRESENT_IN_STATE)", "obs"),
+       ("set health_status", "folder_state['scanned_this_step'] && not (folder_state is NOT_PRESENT_IN_STATE) && self.file_system_requires_scan", "folder_state['visible_status']"),
+       ("set health_status", "not (folder_state is NOT_PRESENT_IN_STATE) && not (folder_state['scanned_this_step']) && self.file_system_requires_scan", "self.cached_obs['health_status']"),
+       ("set health_status", "not (folder_state is NOT_PRESENT_IN_STATE) && not (self.file_system_requires_scan)", "folder_state['health_status']"),
+       ("set obs['health_status']", "not (folder_state is NOT_PRESENT_IN_STATE)", "health_status"),
+       ("set self.cached_obs", "not (folder_state is NOT_PRESENT_IN_STATE)", "obs")] ∧
+    Gen.Health.stateKeys =
+      [("FileSystemItemABC.describe_state", "health_status", "self.health_status.value"),
+       ("FileSystemItemABC.describe_state", "visible_status", "self.visible_health_status.value"),
+       ("Folder.describe_state", "scanned_this_step", "self._scanned_this_step"),
+       ("FileSystem.describe_state", "folders", "{folder.name: folder.describe_state() for folder in self.folders.values()}")] := by
+  decide
+
+/-- `pre_timestep` reaches every LIVE folder of every node unconditionally (whatever the node's power state) and no deleted folder
+(= `Node.pre`); a game step is `pre_timestep; requests; apply_timestep; observe` (= `Node.gameStep`, then `FolderObs.observe`) -/
+theorem C14_gen_pre_chain :
+    (∀ r ∈ [("PrimaiteGame.pre_timestep", "self.simulation.pre_timestep", "", ""),
+            ("Simulation.pre_timestep", "self.network.pre_timestep", "", ""),
+            ("Network.pre_timestep", "node.pre_timestep", "for node in self.nodes.values()", ""),
+            ("Node.pre_timestep", "self.file_system.pre_timestep", "", ""),
+            ("FileSystem.pre_timestep", "folder.pre_timestep", "for folder in self.folders.values()", "")],
+        r ∈ Gen.Health.preChain) ∧
+    (Gen.Health.preChain.filter (fun r => r.1 = "FileSystem.pre_timestep" && r.2.1 != "super().pre_timestep")).length = 1 ∧
+    Gen.Health.gameStepOrder = ["pre_timestep", "apply_agent_actions", "advance_timestep", "update_agents",
+      "advance_timestep -> self.simulation.apply_timestep", "pre_timestep -> self.simulation.pre_timestep"] := by
+  decide
+
 end Primaite.Health
